@@ -7,6 +7,10 @@ import sys
 
 sys.setrecursionlimit(20000)
 
+if os.environ.get("SYMX_REPO"):
+    # development aid: analyse another checkout (a scratch worktree with a seeded change) instead of /repo; never set by registered commands
+    sys.path.insert(0, os.environ["SYMX_REPO"])
+
 HARNESS = {
     "C07": "harness.c07_options",
 }
